@@ -61,6 +61,10 @@ CHECKS = {
    technique="bounded-exhaustive differential execution of every history under 3 storage backends x 3 node-cache settings on the real crate, comparing observation transcripts and file bytes",
    text="Every history of the listed families (small and 3/5000/20000-byte blocks, clears, reopen, make_read_only, replica request orders) runs under JournalStore, RandomAccessMemory and RandomAccessDisk (tmpfs), each with the node cache off, default and limited to ~2 nodes: all call results and info/has/get after every call must be identical in all runs and the four files byte-identical (read back in full). Deeper families run on the instrumented backend with the three cache settings only (cache coherence across multi-round reads). The thorough tier repeats everything in a second build without the sparse feature.",
    note="This is also the validation of the journaling backend used by every other check. Disk files live on /dev/shm (fallback /verif/run)."),
+ "C15": dict(cat="model_checking", ref="DESIGN.md §2 C15",
+   technique="stateless exhaustive exploration of cooperative schedules of the real SharedCore under a hand-rolled deterministic executor (preemption-bounded for the largest configurations), linearizability checked against all sequential orders run on the real crate",
+   text="For every configuration of 2-4 tasks x 1-3 calls over {append, append_batch, get, has, info, missing_nodes, create_proof, clear via the public mutex} on a writer and {verify_and_apply_proof of conflicting pre-built proofs, get, info, missing_nodes} on a replica, every schedule (scheduling points: task start, every storage operation, every contended lock, a yield between a task's calls) is executed on the real SharedCore over the yielding backend; the invoke/return history of each execution must equal some sequential order of the calls consistent with real-time order, obtained by running that order on a plain Hypercore, final state included; no deadlock, no panic. Both virtual-clock regimes (async-lock's 500us starvation switch never / always taken).",
+   note="Cooperative scheduling at await granularity suffices because the crate forbids unsafe code and shares state only through async_lock::Mutex (its atomics under true parallelism are trusted). The 3x2 and 4x1 families are explored up to a stated preemption bound; everything else without bound. Wall clock owned via a clock_gettime override."),
 }
 
 PENDING = {
